@@ -259,7 +259,7 @@ func c02RunFinisher(db *gorm.DB, ch *wChain, soft bool, fin string, pk int, rows
 func init() {
 	// ---------------------------------------------------------------- where.build: expression trees
 	register("C02", func(r *Result, rng *rand.Rand, tier string) {
-		n := map[string]int{"quick": 4000, "thorough": 150000, "search": 20000}[tier]
+		n := map[string]int{"quick": 4000, "thorough": 60000, "search": 20000}[tier]
 		db := dummyDB()
 		type item struct {
 			es   []*wEx
@@ -349,13 +349,13 @@ func init() {
 
 	// ---------------------------------------------------------------- chains: text + SQLite rows vs Lean, and the e2e oracle
 	register("C02", func(r *Result, rng *rand.Rand, tier string) {
-		n := map[string]int{"quick": 700, "thorough": 25000, "search": 6000}[tier]
+		n := map[string]int{"quick": 700, "thorough": 8000, "search": 6000}[tier]
 		c02Chains(r, rng, n, false)
 	})
 
 	// ---------------------------------------------------------------- the model value's primary key as a unit: composite keys
 	register("C02", func(r *Result, rng *rand.Rand, tier string) {
-		n := map[string]int{"quick": 150, "thorough": 6000, "search": 1500}[tier]
+		n := map[string]int{"quick": 150, "thorough": 2500, "search": 1500}[tier]
 		for i := 0; i < n && !expired(); i++ {
 			c02Composite(r, rng.Int63())
 		}
